@@ -183,13 +183,14 @@ def spec_violation(case, impl, replies):
     got = sum(len(x) // 2 for x in impl["inner"])
     if got > limit:
         return "application handed %d decompressed bytes, limit %d" % (got, limit)
-    if any(isinstance(e, str) and (e == "uncaught" or e.startswith("log:")) for e in impl["ev"]):
-        return "peer input reported as uncaught: " + next(e for e in impl["ev"] if isinstance(e, str) and (e == "uncaught" or e.startswith("log:")))
+    # NOTE: an "Uncaught exception" record is *not* a C04 violation (the statement is about sizes only).  It does occur:
+    # a truncated gzip body whose last bytes are only released by flush() makes _GzipMessageDelegate.finish() raise
+    # ValueError("decompressor.flush returned data") -> logged at ERROR, connection closed without a response (see docs).
     if not impl["a_ok"]:
         return "decompress called with max_length <= 0"
     full = case.get("plain_len")
     if full is not None and case.get("complete"):
-        if full > limit and ("fin" in impl["ev"] or not impl["closed"]):
+        if full > limit and ("fin" in impl["ev"] or not impl["closed"]) and "uncaught" not in impl["ev"]:
             return "gzip body decompressing to %d > limit %d was not refused" % (full, limit)
         if full <= limit and case.get("comp_len", 0) <= limit and ("fin" not in impl["ev"] or got != full):
             return "gzip body within the limit (%d <= %d) was not delivered whole (got %d)" % (full, limit, got)
@@ -231,6 +232,14 @@ def signature(case, impl, why):
 
 
 def shrink(case):
+    if case["kind"] == "gzip":
+        # the expectations (plain_len, complete) describe the data: only the segmentation may shrink
+        cuts = list(case["cuts"])
+        if cuts:
+            yield {**case, "cuts": []}
+            for i in range(len(cuts)):
+                yield {**case, "cuts": cuts[:i] + cuts[i + 1:]}
+        return
     for c in base.shrink({**case, "kind": "stream"}):
         yield {**c, "kind": case["kind"]}
 
@@ -309,6 +318,8 @@ def _gzip_case(rng):
         cut = rng.randrange(len(plain) + 1)
         comp = _gzip.compress(plain[:cut], mtime=0) + _gzip.compress(plain[cut:], mtime=0)
         plain = plain[:cut]      # GzipDecompressor stops after the first member (the rest lands in unused_data)
+        complete = False         # multi-member bodies are not supported by tornado (later members are ignored, or the
+                                 # request is refused with "unconsumed gzip data"): only the size bound is asserted
     elif style == "truncated":
         comp = _gzip.compress(plain, mtime=0)
         comp = comp[:max(0, len(comp) - rng.choice([1, 4, 8, 9, 20]))]
@@ -323,8 +334,8 @@ def _gzip_case(rng):
 
 
 def gen_cases(rng, tier):
-    n_lim = {"quick": 700, "thorough": 5000, "search": 800}[tier]
-    n_gz = {"quick": 500, "thorough": 2500, "search": 500}[tier]
+    n_lim = {"quick": 1200, "thorough": 12000, "search": 800}[tier]
+    n_gz = {"quick": 700, "thorough": 6000, "search": 500}[tier]
     for _ in range(n_lim):
         cfg, data, gen = _limit_case(rng)
         n = len(data)
